@@ -24,7 +24,7 @@ from simple_parsing.wrappers.dataclass_wrapper import DataclassWrapperType
 from . import utils
 from .conflicts import ConflictResolution, ConflictResolver
 from .help_formatter import SimpleHelpFormatter
-from .helpers.serialization.serializable import read_file
+from .helpers.serialization.serializable import DC_TYPE_KEY, read_file
 from .utils import (
     Dataclass,
     DataclassT,
@@ -863,6 +863,8 @@ class ArgumentParser(argparse.ArgumentParser):
                 # to the constructor.
                 constructor = dc_wrapper.dataclass_fn
                 constructor_args = constructor_arguments.pop(destination)
+                # The type tag written by `save(..., save_dc_types=True)` is not a constructor argument.
+                constructor_args.pop(DC_TYPE_KEY, None)
                 # If the dataclass wrapper is marked as 'optional' and all the
                 # constructor args are None, then the instance is None.
                 value_for_dataclass_field: Any | dict[str, Any] | None
